@@ -225,6 +225,27 @@ func init() {
 				}
 				return
 			}
+			var st struct {
+				Kind   string `json:"stalled_delivery"`
+				Cached bool   `json:"cached"`
+				Which  int    `json:"stalled_scope"`
+			}
+			if json.Unmarshal(ctx.Replay, &st) == nil && st.Kind != "" {
+				ctx.Case(st, "", "stalled-delivery-"+st.Kind, "")
+				for k := 0; k < 6; k++ {
+					f := ""
+					if st.Kind == "overlapping-pass" {
+						f = c02Overlap(st.Cached)
+					} else {
+						f = c02CloseInFlight(st.Cached, st.Which)
+					}
+					if f != "" {
+						ctx.Fail("delivered_values_are_updates_and_fresh", f, st, nil)
+						return
+					}
+				}
+				return
+			}
 			var cy c02CycleCase
 			if json.Unmarshal(ctx.Replay, &cy) == nil && cy.Cycle {
 				ctx.Case(cy, "", "close-and-reobtain-cycles", "")
@@ -328,6 +349,22 @@ func init() {
 			ctx.Case(cs, "", "updates-through-handles-of-dropped-scopes", "")
 			if f := c02Stale(k%2 == 1, 40); f != "" {
 				ctx.Fail("delivered_values_are_updates_and_fresh", f, cs, nil)
+			}
+		}
+		// a delivery stalled inside the reporter: a second pass; root Close with the real ticker
+		for k := 0; k < 2; k++ {
+			cs := map[string]interface{}{"stalled_delivery": "overlapping-pass", "cached": k == 1}
+			ctx.Case(cs, "", "stalled-delivery-overlapping-pass", "")
+			if f := c02Overlap(k == 1); f != "" {
+				ctx.Fail("delivered_values_are_updates_and_fresh", f, cs, nil)
+			}
+		}
+		for k := 0; k < 12; k++ {
+			cs := map[string]interface{}{"stalled_delivery": "root-close", "cached": k%2 == 1, "stalled_scope": k / 2 % 3}
+			ctx.Case(cs, "", "stalled-delivery-root-close", "")
+			if f := c02CloseInFlight(k%2 == 1, k/2%3); f != "" {
+				ctx.Fail("delivered_values_are_updates_and_fresh", f, cs, nil)
+				break
 			}
 		}
 		// goroutines obtaining the same new gauge at the same moment share one gauge
